@@ -12,6 +12,8 @@ package main
 //                | qq:<a>   QUIC query on a's connection (opened on first use)
 //                | hc:<a>   open the HTTP client's TCP connection from source a
 //                | hq:<a>   HTTP POST over that connection, client address a (any v4/v6/v4-mapped) in the header
+//                | hx:<i>   HTTP POST whose client address header is the i-th unparsable value of admitBadHeaders
+//                | sl:<ms>  pause (kind admitglobal: the global bucket refills); reported as SL
 //   result: out=<o>,<o>,... [SLOW]     o = ANS | REFUSED | 503 | CLOSED | SCLOSED | ACCEPT | other diagnostic text,
 //           with "+fwd" appended when a query that was not answered reached the upstream, "-nofwd" when an
 //           answered one did not.
@@ -39,7 +41,11 @@ import (
 	"github.com/rs/zerolog"
 )
 
-func init() { register("admit", 2, runAdmit) }
+func init() {
+	register("admit", 2, runAdmit)
+	// round 4: the same scripts with a global limit and a pause (step sl:<ms>); judged by the property oracle only
+	register("admitglobal", 4, runAdmit)
+}
 
 type admitUpstream struct {
 	uc   *net.UDPConn
@@ -270,13 +276,21 @@ func (e *admitEnv) httpConnect(src netip.Addr) string {
 	return "ACCEPT"
 }
 
+// header values that do not parse as a client address (step hx:<index>)
+var admitBadHeaders = []string{"203.0.113.7:4711", "unknown, 203.0.113.7", "[2001:db8::1]", "x", "10.1.2.3/24", "10.1.2", " ,10.1.2.3",
+	"300.1.1.1", "2001:db8::g", "1.2.3.4.5"}
+
 func (e *admitEnv) httpQuery(client netip.Addr, q []byte) string {
+	return e.httpQueryHdr(client.String(), q)
+}
+
+func (e *admitEnv) httpQueryHdr(hdr string, q []byte) string {
 	if e.httpClient == nil {
 		return "NOCONN"
 	}
 	req, _ := http.NewRequest("POST", fmt.Sprintf("http://127.0.0.1:%d/", e.httpPort), bytes.NewReader(q))
 	req.Header.Set("Content-Type", "application/dns-message")
-	req.Header.Set("X-Client", client.String())
+	req.Header.Set("X-Client", hdr)
 	resp, err := e.httpClient.Do(req)
 	if err != nil {
 		return "HTTPERR"
@@ -394,15 +408,28 @@ func runAdmit(id string, parts []string) string {
 		}
 
 		var outs []string
+		var slept time.Duration
 		t0 := time.Now()
 		for i, st := range strings.Split(f["steps"], ",") {
 			if st == "" {
 				continue
 			}
 			kind, as, _ := strings.Cut(st, ":")
-			a, err := c15ParseAddr(as)
-			if err != nil {
-				return "HARNESS-ERROR " + err.Error()
+			if kind == "sl" {
+				// a pause (the global bucket refills); not part of the script's running time
+				d := time.Duration(hx.MustAtoi(as)) * time.Millisecond
+				time.Sleep(d)
+				slept += d
+				outs = append(outs, "SL")
+				continue
+			}
+			var a netip.Addr
+			if kind != "hx" {
+				var err error
+				a, err = c15ParseAddr(as)
+				if err != nil {
+					return "HARNESS-ERROR " + err.Error()
+				}
 			}
 			name := []byte(fmt.Sprintf("\x03s%02d\x05%5.5s\x04test", i%100, strings.ReplaceAll(id+"xxxxx", ".", "x")))
 			q := hx.BuildQuery(uint16(0x4000+i), name, 1, 1, true)
@@ -420,6 +447,8 @@ func runAdmit(id string, parts []string) string {
 				isQuery = false
 			case "hq":
 				o = env.httpQuery(a, q)
+			case "hx":
+				o = env.httpQueryHdr(admitBadHeaders[hx.MustAtoi(as)%len(admitBadHeaders)], q)
 			default:
 				return "HARNESS-ERROR bad step " + st
 			}
@@ -436,7 +465,7 @@ func runAdmit(id string, parts []string) string {
 			}
 			outs = append(outs, o)
 		}
-		el := time.Since(t0)
+		el := time.Since(t0) - slept
 		res := "out=" + strings.Join(outs, ",")
 		if el > 800*time.Millisecond {
 			fmt.Fprintf(os.Stderr, "admit %s: script took %v\n", id, el)
